@@ -256,7 +256,7 @@ theorem C17_charset_can_encode (can : Str → Bool) (forced ac : Option Str) (c 
       · split at h
         · rename_i r hl
           subst h
-          obtain ⟨_, _, _, _, _, _, hcan, _⟩ := csLoop_chosen can encs [] c (by simp) hl
+          obtain ⟨_, _, _, _, _, _, _, hcan, _⟩ := csLoop_chosen can _ encs [] c (by simp) hl
           exact hcan
         · rename_i att hl
           split at h
@@ -267,17 +267,24 @@ theorem C17_charset_can_encode (can : Str → Bool) (forced ac : Option Str) (c 
             · simp at h
           · simp at h
 
+/-- the field ranks the default charset itself -/
+def dflListed (encs : List Elem) : Bool := (encs.map fun e => lower e.value).contains (lower sUtf8)
+
+/-- an element that offers a charset: q > 0, and not a `*` shadowed by an entry for the default -/
+def effective (encs : List Elem) (e : Elem) : Prop := e.q.isPos = true ∧ ¬ shadowed (dflListed encs) e
+
 /-- **Negotiated, buffered: the most preferred representable charset is chosen.**  The chosen charset
-    is the default (no header), or stands for a listed element with q > 0 such that no listed element
-    with strictly higher q (> 0) can encode the body, or is the ISO-8859-1 last resort when no listed
-    element with q > 0 can. -/
+    is the default (no header), or stands for an effective listed element such that no effective
+    listed element with strictly higher q can encode the body, or is the ISO-8859-1 last resort when
+    no effective listed element can.  (`*` stands for the default charset only when the field does not
+    rank the default itself.) -/
 theorem C17_charset_preferred (can : Str → Bool) (ac : Option Str) (c : Str)
     (h : findAcceptableCharset can false none ac = .chosen c) :
     ∃ encs, acceptElements ac = .ok encs ∧ DescKey encs ∧
       ((encs = [] ∧ c = sUtf8) ∨
-       (∃ e ∈ encs, e.q.isPos = true ∧ c = nameOf e ∧
-          ∀ e' ∈ encs, e.q.key < e'.q.key → e'.q.isPos = true → can (nameOf e') = false) ∨
-       (c = sIso ∧ fallbackApplies encs ∧ ∀ e' ∈ encs, e'.q.isPos = true → can (nameOf e') = false)) := by
+       (∃ e ∈ encs, effective encs e ∧ c = nameOf e ∧
+          ∀ e' ∈ encs, e.q.key < e'.q.key → effective encs e' → can (nameOf e') = false) ∨
+       (c = sIso ∧ fallbackApplies encs ∧ ∀ e' ∈ encs, effective encs e' → can (nameOf e') = false)) := by
   unfold findAcceptableCharset at h
   split at h
   · simp at h
@@ -295,23 +302,24 @@ theorem C17_charset_preferred (can : Str → Bool) (ac : Option Str) (c : Str)
     · split at h
       · rename_i r hl
         subst h
-        obtain ⟨pre, e, post, hes, hp, hc, _, hpre⟩ := csLoop_chosen can encs [] c (by simp) hl
-        refine Or.inr (Or.inl ⟨e, by simp [hes], hp, hc, ?_⟩)
+        obtain ⟨pre, e, post, hes, hp, hns, hc, _, hpre⟩ := csLoop_chosen can _ encs [] c (by simp) hl
+        refine Or.inr (Or.inl ⟨e, by simp [hes], ⟨hp, hns⟩, hc, ?_⟩)
         intro e' he' hk hq
-        rw [hes] at he' hdesc
-        rcases List.mem_append.mp he' with hm | hm
-        · exact hpre e' hm hq
+        have he'' := he'
+        rw [hes] at he'' hdesc
+        rcases List.mem_append.mp he'' with hm | hm
+        · exact hpre e' hm hq.1 hq.2
         · rcases List.mem_cons.mp hm with rfl | hm'
           · omega
           · have := (List.pairwise_cons.mp (List.pairwise_append.mp hdesc).2.1).1 e' hm'
             omega
       · rename_i att hl
-        obtain ⟨hatt, hall⟩ := csLoop_inr can encs [] att (by simp) hl
+        obtain ⟨hatt, hall⟩ := csLoop_inr can _ encs [] att (by simp) hl
         split at h
         · rename_i hfb
           split at h
           · simp only [CsResult.chosen.injEq] at h
-            exact Or.inr (Or.inr ⟨h.symm, hfb, hall⟩)
+            exact Or.inr (Or.inr ⟨h.symm, hfb, fun e' he' hq => hall e' he' hq.1 hq.2⟩)
           · simp at h
         · simp at h
 
@@ -319,7 +327,7 @@ theorem C17_charset_preferred (can : Str → Bool) (ac : Option Str) (c : Str)
 theorem C17_charset_406_only_if_none (can : Str → Bool) (ac : Option Str)
     (h : findAcceptableCharset can false none ac = .notAcceptable) :
     ∃ encs, acceptElements ac = .ok encs ∧ encs ≠ [] ∧
-      (∀ e ∈ encs, e.q.isPos = true → can (nameOf e) = false) ∧
+      (∀ e ∈ encs, effective encs e → can (nameOf e) = false) ∧
       (fallbackApplies encs → can sIso = false) := by
   unfold findAcceptableCharset at h
   split at h
@@ -334,10 +342,10 @@ theorem C17_charset_406_only_if_none (can : Str → Bool) (ac : Option Str)
       split at h
       · rename_i r hl
         subst h
-        exact absurd hl (csLoop_ne_406 can false encs [])
+        exact absurd hl (csLoop_ne_406 can false _ encs [])
       · rename_i att hl
-        obtain ⟨hatt, hall⟩ := csLoop_inr can encs [] att (by simp) hl
-        refine ⟨by simpa using hne, hall, ?_⟩
+        obtain ⟨hatt, hall⟩ := csLoop_inr can _ encs [] att (by simp) hl
+        refine ⟨by simpa using hne, fun e he hq => hall e he hq.1 hq.2, ?_⟩
         intro hfb
         split at h
         · split at h
@@ -407,6 +415,37 @@ theorem C17_charset_announced (can : Str → Bool) (i : EncodeIn) (c nct : Str)
 
 /-! ### the emitted bytes -/
 
+/-- what Python guarantees for an incremental encoder run over the pieces of a text (flush included):
+    the concatenated output decodes to the concatenated text -/
+def IncRT (k : Codec) : Prop :=
+  ∀ name chunks bs, k.inc name chunks = some bs → k.dec name bs.flatten = some chunks.flatten
+
+/-- **Sound**: what the buffered tool emits decodes, under the announced charset, to the text — for
+    every chunking and every codec (signature-writing and stateful ones included). -/
+theorem C17_charset_sound (k : Codec) (hk : IncRT k) (name : Str) (chunks : List Str) (bs : List Bytes)
+    (h : encodeString k name chunks = some bs) : k.dec name bs.flatten = some chunks.flatten :=
+  hk name chunks bs h
+
+/-- a codec that writes a mark once per body (the shape of utf-16 / utf-32 / utf-8-sig under an
+    incremental encoder), on the texts made of `a` -/
+def markOnceCodec : Codec where
+  enc := fun _ t => if t = ['a'] then some [0xFF, 0x61] else none
+  dec := fun _ b => if b = [0xFF, 0x61] then some ['a'] else if b = [0xFF, 0x61, 0x61] then some ['a', 'a'] else none
+  inc := fun _ cs => if cs = [['a'], ['a']] then some [[0xFF, 0x61], [0x61]] else none
+
+/-- non-vacuity: it meets the contract, and two chunks decode to the two-letter text -/
+example : IncRT markOnceCodec := by
+  intro name chunks bs h
+  simp only [markOnceCodec] at h ⊢
+  split at h
+  · rename_i hc
+    cases h
+    subst hc
+    decide
+  · simp at h
+
+/-! ### the per-chunk encoder of the unrepaired code (finding F18c) -/
+
 /-- per-chunk round trip: what Python guarantees for `text.encode(name)` / `bytes.decode(name)` -/
 def ChunkRT (k : Codec) : Prop := ∀ name t b, k.enc name t = some b → k.dec name b = some t
 
@@ -415,23 +454,22 @@ def ConcatOk (k : Codec) (name : Str) : Prop :=
   k.dec name [] = some [] ∧
   ∀ b1 b2 t1 t2, k.dec name b1 = some t1 → k.dec name b2 = some t2 → k.dec name (b1 ++ b2) = some (t1 ++ t2)
 
-/-- the full statement: what the buffered tool emits decodes, under the announced charset, to the text -/
-def C17_charset_sound_full : Prop :=
+/-- the full statement for the per-chunk encoder -/
+def perChunk_sound_full : Prop :=
   ∀ (k : Codec), ChunkRT k → ∀ (name : Str) (chunks : List Str) (bs : List Bytes),
-    encodeString k name chunks = some bs → k.dec name bs.flatten = some chunks.flatten
+    encodeStringPerChunk k name chunks = some bs → k.dec name bs.flatten = some chunks.flatten
 
-/-- **Sound (partial)**: for codecs compatible with concatenation the emitted bytes decode to the text,
-    for every chunking. -/
-theorem C17_charset_sound_partial (k : Codec) (hk : ChunkRT k) (name : Str) (hc : ConcatOk k name)
-    (chunks : List Str) (bs : List Bytes) (h : encodeString k name chunks = some bs) :
+/-- for codecs compatible with concatenation the per-chunk bytes decoded to the text -/
+theorem perChunk_sound_partial (k : Codec) (hk : ChunkRT k) (name : Str) (hc : ConcatOk k name)
+    (chunks : List Str) (bs : List Bytes) (h : encodeStringPerChunk k name chunks = some bs) :
     k.dec name bs.flatten = some chunks.flatten := by
   induction chunks generalizing bs with
   | nil =>
-    simp only [encodeString, List.mapM_nil] at h
+    simp only [encodeStringPerChunk, List.mapM_nil] at h
     cases h
     simpa using hc.1
   | cons t ts ih =>
-    simp only [encodeString, List.mapM_cons] at h
+    simp only [encodeStringPerChunk, List.mapM_cons] at h
     cases hb : k.enc name t with
     | none => simp [hb] at h
     | some b =>
@@ -443,25 +481,15 @@ theorem C17_charset_sound_partial (k : Codec) (hk : ChunkRT k) (name : Str) (hc 
         simp only [List.flatten_cons]
         exact hc.2 b r.flatten t ts.flatten (hk name t b hb) (ih r hr)
 
-/-- a one-chunk body needs no concatenation hypothesis -/
-theorem C17_charset_sound_single (k : Codec) (hk : ChunkRT k) (name : Str) (t : Str) (bs : List Bytes)
-    (h : encodeString k name [t] = some bs) : k.dec name bs.flatten = some t := by
-  simp only [encodeString, List.mapM_cons, List.mapM_nil] at h
-  cases hb : k.enc name t with
-  | none => simp [hb] at h
-  | some b =>
-    simp [hb] at h
-    subst h
-    simpa using hk name t b hb
-
 /-- a codec that prefixes every encoding with a mark (the shape of utf-16 / utf-32 / utf-8-sig) -/
 def bomCodec : Codec where
   enc := fun _ t => if t = ['a'] then some [0xFF, 0x61] else none
   dec := fun _ b => if b = [0xFF, 0x61] then some ['a'] else none
+  inc := fun _ _ => none
 
-/-- **F18c**: the full statement is false — per-chunk encoding under a marking codec does not decode to
-    the text once there are two chunks. -/
-theorem C17_charset_sound_full_false : ¬ C17_charset_sound_full := by
+/-- **F18c** (fixed): for the per-chunk encoder the full statement was false — under a marking codec two
+    chunks do not decode to the text. -/
+theorem unrepaired_charset_sound_full_false : ¬ perChunk_sound_full := by
   intro h
   have hk : ChunkRT bomCodec := by
     intro name t b hb
@@ -482,10 +510,25 @@ theorem C17_charset_stream_full_false :
   have := h (fun _ => false) none (some ['x']) ['x'] (by decide)
   simp at this
 
-/-- **F18e**: `*` ranks the default charset at the q of `*`, ignoring an explicit entry for it:
-    `utf-8;q=0, *;q=0.2` is answered in utf-8 -/
+/-- the loop as it was BEFORE fix C17-star-explicit-default (finding F18e): `*` always tries the default -/
+def csLoopUnrepaired (can : Str → Bool) (stream : Bool) : List Elem → List Str → Sum CsResult (List Str) :=
+  csLoop can stream false
+
+/-- **F18e** (fixed): on the unrepaired loop `*` ranked the default charset at the q of `*`, ignoring an
+    explicit entry for it: the elements of `utf-8;q=0, *;q=0.2` were answered in utf-8 -/
 theorem C17_charset_star_ignores_explicit :
-    findAcceptableCharset (fun _ => true) false none (some "utf-8;q=0, *;q=0.2".toList) = .chosen sUtf8 := by
+    (match acceptElements (some "utf-8;q=0, *;q=0.2".toList) with
+      | .ok encs => csLoopUnrepaired (fun _ => true) false encs []
+      | _ => .inl .exotic) = .inl (.chosen sUtf8) := by
+  decide
+
+/-- … the repaired code honours the explicit entry: utf-8 is excluded, nothing else is on offer → 406;
+    and an explicit low rank lets a more preferred charset win -/
+theorem C17_charset_star_respects_explicit :
+    findAcceptableCharset (fun _ => true) false none (some "utf-8;q=0, *;q=0.2".toList) = .notAcceptable ∧
+    findAcceptableCharset (fun _ => true) false none (some "euc-jp;q=0.4, *;q=0.8, utf-8;q=0.3".toList)
+      = .chosen "euc-jp".toList ∧
+    findAcceptableCharset (fun _ => true) false none (some "*;q=1, utf-7;q=.2".toList) = .chosen sUtf8 := by
   decide
 
 /-- `parseQ` never yields a scale above `keyScale`, so `Q.key` compares exact decimals -/
